@@ -1104,4 +1104,69 @@ theorem sigEq_sound {bsig : List (String × Option Nat)} {esig : List (String ×
   obtain ⟨v, hv, _⟩ := key p hp
   rw [hv]; rfl
 
+/-! ### references that can never be accepted make the whole finalisation fail -/
+
+theorem finalizePass_shapes (L : List String) : ∀ (c c' : Circ),
+    (∀ b ∈ L, (c.kind b).isSome) → finalizePass c L = (c', none) →
+    ∀ b ∈ L, ∀ r ∈ allRefs (c.inputs b), r.okShape = true := by
+  induction L with
+  | nil => intro c c' _ _ b hb; cases hb
+  | cons b rest ih =>
+    intro c c' hL h
+    have hb := hL b (by simp)
+    unfold finalizePass at h
+    split at h
+    · cases h
+    · next c1 h1 =>
+      have fb := finalizeBlk_fb hb h1
+      obtain ⟨_, f2, _⟩ := fb.ok rfl
+      have hL1 : ∀ x ∈ rest, (c1.kind x).isSome := fun x hx => by
+        obtain ⟨k, hk⟩ := Option.isSome_iff_exists.mp (hL x (by simp [hx]))
+        exact isSome_of_kind (fb.grow.kind x k hk)
+      have ih' := ih c1 c' hL1 h
+      intro x hx r hr
+      by_cases exb : x = b
+      · subst exb; exact f2 r hr
+      · rcases List.mem_cons.mp hx with e | hx
+        · exact absurd e exb
+        · rw [← fb.grow.inputs x exb (hL x (by simp [hx]))] at hr
+          exact ih' x hx r hr
+
+theorem finalizeCore_shapes {c w : Circ} (hw : WF c) (h : finalizeCore c = (w, none)) :
+    ∀ b cls, c.kind b = some (.c cls) → ∀ r ∈ allRefs (c.inputs b), r.okShape = true := by
+  unfold finalizeCore at h
+  split at h
+  · cases h
+  · next c1 h1 =>
+    have hL1 : ∀ b ∈ cblockNames c, (c.kind b).isSome := fun b hb => by
+      obtain ⟨_, cls, hk⟩ := mem_cblockNames.mp hb; exact isSome_of_kind hk
+    intro b cls hk
+    exact finalizePass_shapes _ c c1 hL1 h1 b
+      (mem_cblockNames.mpr ⟨hw b (isSome_of_kind hk), cls, hk⟩)
+
+theorem resolveSlots_inputs (todo : List Slot) : ∀ (c : Circ) (done : List Slot) (c' : Circ)
+    (e : Option Err), resolveSlots c done todo = (c', e) →
+    ∀ x, (c.kind x).isSome → c'.inputs x = c.inputs x := by
+  induction todo with
+  | nil =>
+    intro c done c' e h
+    simp [resolveSlots] at h; obtain ⟨rfl, rfl⟩ := h
+    intro x _; rfl
+  | cons sl rest ih =>
+    intro c done c' e h
+    unfold resolveSlots at h
+    split at h
+    · exact ih _ _ _ _ h
+    · split at h
+      · cases h; intro x _; rfl
+      · next c1 r' hv =>
+        have vb := validateBlk_vb hv
+        have step : ∀ x, (c.kind x).isSome → c1.inputs x = c.inputs x :=
+          fun x hx => vb.grow.inputs x (fun hf => hf) hx
+        split at h
+        · cases h; exact step
+        · intro x hx
+          obtain ⟨k, hk⟩ := Option.isSome_iff_exists.mp hx
+          rw [ih _ _ _ _ h x (isSome_of_kind (vb.grow.kind x k hk)), step x hx]
+
 end Edzed.Wiring
